@@ -100,7 +100,8 @@ class Wsx:
             else:
                 f[k] = v
         ev = Event(status, f, rng, cmd)
-        if status == "err" and f.get("stage") == "credential":
+        if status == "err" and f.get("stage") == "credential" and not (cmd or "").startswith("ver_db"):
+            # (a re-import of exported values is judged by the session driver itself: the exported text need not be valid)
             raise CredentialRefused(cmd, ev)
         self.calls += 1
         if self.record is not None:
